@@ -234,8 +234,12 @@ func (s *Server) Run(addr string, opt ...Option) error {
 		go func() {
 			defer close(connDone)
 			defer func() {
-				s.logger.Debug("connWg done", "op", op, "conn", localConnID)
-				s.connWg.Done()
+				// the conn is done (and Stop may return) only once it's closed
+				// and the onCloseHandler has completed
+				defer func() {
+					s.logger.Debug("connWg done", "op", op, "conn", localConnID)
+					s.connWg.Done()
+				}()
 				err := conn.close()
 				if err != nil {
 					s.logger.Error("error closing conn", "op", op, "conn", localConnID, "conn/req", "err", err)
